@@ -21,6 +21,9 @@ def build(tier):
     # the input path is a symbolic link to the tree: index titles and the default prefix name the path as given
     obs.append(trees.tree_ob("C14 titles", "S2q" if quick else "S2", "link", dict(base, recursive=True, auto_ex=False, sep2=False), fixrev=True, fixexcl=True,
                              timeout=400 if quick else 2400, note=" (input path is a symbolic link to the tree)"))
+    # a symbolic link to a directory inside the tree (links not followed): not walked, hence not listed
+    obs.append(trees.tree_ob("C14", "S2q" if quick else "S2", "symdir", dict(base, recursive=True, has_prefix=False, sep2=False), fixrev=True, fixexcl=True,
+                             timeout=400 if quick else 2400, note=" (a symbolic link to a sibling directory inside the tree, follow_symlinks off)"))
     # known finding D15 (kept visible): a module named index.cmake and its directory's index.rst are written to one path
     o = trees.tree_ob("C14 index.cmake next to the directory index", "S7", "tree", dict(base, recursive=False, auto_ex=False, has_prefix=False, sep2=False),
                       fixrev=True, fixexcl=True, timeout=400 if quick else 2400, note=" (known finding D15 expected)")
